@@ -191,6 +191,11 @@ func (c *Ctx) intrinsic(st *State, fn *ssa.Function, args []Value) (intrRes, boo
 		return done(nil)
 	}
 	full := fn.String()
+	if v, ok := c.cfg.StubConst[strings.TrimPrefix(full, kanziPrefix+"/")]; ok {
+		// harness-declared cut: the callee is replaced by a constant result (recorded in the evidence)
+		rt := fn.Signature.Results().At(0).Type()
+		return done(tb.Const(typeWidth(rt), v))
+	}
 	switch full {
 	case "fmt.Sprintf", "fmt.Sprint", "fmt.Sprintln":
 		return done(c.opaqueStr())
